@@ -54,18 +54,21 @@ Settings3(n) ==
 Levels == {"backend", "cli"}
 Case(lv, opts) == [level |-> lv, opts |-> opts]
 
-Empty == {Case(lv, <<>>) : lv \in Levels}
-Singles(G) == {Case(lv, <<o>>) : lv \in Levels, o \in UNION {Forms(n, G) : n \in Names}}
-Pairs(lv, N1, N2, S(_)) ==
-  UNION { UNION { {Case(lv, <<x, y>>) : x \in S(n1), y \in S(n2)} : n2 \in N2 \ {n1} } : n1 \in N1 }
-\* a value that must be rejected next to a legal option, in both positions
-BadWith(lv, b, NO) ==
-  UNION { UNION { {Case(lv, <<b, s>>), Case(lv, <<s, b>>)} : s \in Settings2(n2) } : n2 \in NO \ {b.n} }
-BadPairs(lv, NB, NO, G) == UNION { UNION { BadWith(lv, b, NO) : b \in Bad(n1, G) } : n1 \in NB }
+\* (no big UNION below: TLC builds a UNION by linear membership tests, quadratic in the result)
+All(N, S(_)) == UNION {S(n) : n \in N}        \* a few hundred occurrences at most
+Distinct(c) == \A i, j \in 1..Len(c.opts) : i # j => c.opts[i].n # c.opts[j].n
 
+Empty == {Case(lv, <<>>) : lv \in Levels}
+Singles(G) == LET F(n) == Forms(n, G) IN {Case(lv, <<o>>) : lv \in Levels, o \in All(Names, F)}
+Pairs(lv, N1, N2, S(_)) ==
+  {c \in {Case(lv, <<x, y>>) : x \in All(N1, S), y \in All(N2, S)} : Distinct(c)}
+\* a value that must be rejected next to a legal option, in both positions
+BadPairs(lv, NB, NO, G) ==
+  LET B(n) == Bad(n, G) IN
+  {c \in {Case(lv, <<b, s>>) : b \in All(NB, B), s \in All(NO, Settings2)} \cup
+         {Case(lv, <<s, b>>) : b \in All(NB, B), s \in All(NO, Settings2)} : Distinct(c)}
 Triples(lv, N, S(_)) ==
-  UNION { UNION { UNION { {Case(lv, <<x, y, z>>) : x \in S(n1), y \in S(n2), z \in S(n3)}
-                          : n3 \in N \ {n1, n2} } : n2 \in N \ {n1} } : n1 \in N }
+  {c \in {Case(lv, <<x, y, z>>) : x \in All(N, S), y \in All(N, S), z \in All(N, S)} : Distinct(c)}
 
 \* options whose documented effect depends on another option
 Focus == {"enable_nested_struct", "template", "gen_deep_equal"}
